@@ -55,6 +55,7 @@ type cVar struct {
 	Nest  bool   `json:"nest"` // group handlers spread over two nested groups, with a sibling route registered after the one under test
 	HS    bool   `json:"hs"`   // middleware installed through Handlers() (replacing a dummy stack) instead of Use()
 	Meth  string `json:"meth"` // request method (GET / HEAD / POST): a HEAD response forwards no body but is "written" all the same
+	RHL   bool   `json:"rhl"`  // the custom ReturnHandler is mapped on the application AFTER its first request was served (2 requests)
 	RH    bool   `json:"rh"`   // a custom ReturnHandler is mapped in the injector: it replaces the default table
 	Der   bool   `json:"der"`  // "C" installs a derived request context first and cancels that one
 	WK    int    `json:"wk"`   // how "W" touches the response: 0 always WriteHeader(200+h); else per handler WriteHeader / Write(bytes) / Write(nil) / Flush() / io.Copy / WriteHeader(1xx)
@@ -115,7 +116,7 @@ func (s *chainSpy) Write(b []byte) (int, error) {
 		return int(keep), http.ErrContentLength
 	}
 	s.sent += int64(len(b))
-	if s.x.inRec > 0 && s.x.inRecNext == 0 {
+	if s.x.inRec > s.x.inRecNext { // a Recovery instance is running its own code (not the rest of the chain): its page
 		if strings.Contains(string(b), s.x.marker()) {
 			s.x.detail = true
 		}
@@ -607,6 +608,9 @@ func chainVarFor(c *chainCase, idx int) cVar {
 	v.Form = rng.Intn(2)
 	v.Upg = rng.Intn(5) == 0
 	v.RH = rng.Intn(5) == 0
+	if !v.RH && rng.Intn(5) == 0 {
+		v.RHL = true
+	}
 	v.Meth = []string{"GET", "GET", "HEAD", "POST"}[rng.Intn(4)]
 	v.HS = rng.Intn(3) == 0
 	v.Nest = rng.Intn(2) == 0
@@ -727,7 +731,16 @@ func chainReplay(raw json.RawMessage, idx int, tr *traceWriter) {
 	if reqs < 1 {
 		reqs = 1
 	}
+	if v.RHL {
+		reqs = 2
+	}
+	rh := v.RH
 	for q := 0; q < reqs; q++ {
+		if v.RHL && q == 1 {
+			// a set-up call made after traffic has started: the service registered last is the one later requests get
+			f.Map(customRH)
+			rh = true
+		}
 		x.entered = map[int]bool{}
 		x.panicLog = false
 		x.detail = false
@@ -737,7 +750,7 @@ func chainReplay(raw json.RawMessage, idx int, tr *traceWriter) {
 		if meth == "" {
 			meth = "GET"
 		}
-		tr.emit(map[string]interface{}{"ev": "req", "kinds": kinds, "n": n, "env": v.Env, "rh": v.RH, "method": meth})
+		tr.emit(map[string]interface{}{"ev": "req", "kinds": kinds, "n": n, "env": v.Env, "rh": rh, "method": meth})
 		spy := &chainSpy{hdr: http.Header{}, x: x}
 		ctx, cancel := gocontext.WithCancel(gocontext.Background())
 		x.cancel = cancel
@@ -805,12 +818,18 @@ func chainGen(seed int64, n int, args []string, out *json.Encoder) {
 		if kind == "rec" || rng.Intn(4) == 0 {
 			recAt = rng.Intn(depth)
 		}
+		// a second Recovery instance further down the same chain (application-wide + group or route level), with
+		// whatever lies between them: each one answers for what is below it
+		recAt2 := -1
+		if kind == "rec" && depth >= 3 && rng.Intn(3) == 0 {
+			recAt2 = rng.Intn(depth)
+		}
 		injAt := -1
 		if kind == "rec" && rng.Intn(4) == 0 {
 			injAt = rng.Intn(depth + 1)
 		}
 		for h := 0; h <= depth; h++ {
-			if h == recAt {
+			if h == recAt || h == recAt2 {
 				c.Progs = append(c.Progs, cProg{Ops: []string{"N"}, Ret: cRet{Shape: "none"}, Kind: "rec"})
 				continue
 			}
